@@ -293,6 +293,21 @@ export function gen(rng, params, mode) {
     if (rng.chance(1, 2)) put("a", rng.pick([1, "x"]));
     return [A("rt"), env, rt2, encVal(o), A(rng.chance(1, 2) ? "true" : "false")];
   }
+  if (rng.chance(1, 25)) {
+    // a value that SEVERAL object members of a plain union accept (their parsed results are merged key by key), whose own
+    // keys are named like the methods of Object.prototype
+    const leaf = () => rng.pick([[A("typeof"), "number"], [A("typeof"), "string"], A("any")]);
+    const m1 = [A("object"), [["id", [A("opt"), leaf()]], ["meta", A("any")]], []];
+    const m2 = rng.chance(1, 2) ? [A("object"), [["meta", A("any")], ["at", [A("opt"), [A("typeof"), "string"]]]], []] : [A("object"), [], [[[A("typeof"), "string"], A("any")]]];
+    const rt2 = [A("anyof"), m1, m2, ...(rng.chance(1, 3) ? [[A("typeof"), "string"]] : [])];
+    const o = {};   // (objects without a prototype are not modelled: the seeded variant with `Object.create(null)` is left to the demo)
+    const put = (k, x) => Object.defineProperty(o, k, { value: x, enumerable: true, configurable: true, writable: true });
+    const odd = () => rng.pick(["hasOwnProperty", "hasOwnProperty", "propertyIsEnumerable", "isPrototypeOf", "toLocaleString", "valueOf", "toString", "constructor"]);
+    if (rng.chance(2, 3)) put("id", rng.pick([1, "x"]));
+    put("meta", rng.chance(1, 2) ? (() => { const q = {}; Object.defineProperty(q, odd(), { value: 1, enumerable: true, configurable: true, writable: true }); return q; })() : rng.pick([1, null, "m"]));
+    if (rng.chance(1, 2)) put(odd(), rng.pick([7, "s", null]));
+    return [A("rt"), env, rt2, encVal(o), A(rng.chance(1, 2) ? "true" : "false")];
+  }
   const r = rng.below(10);
   let v = r < 6 ? member(rng, rt, env, 2) : r < 9 ? mutate(rng, member(rng, rt, env, 2), 3) : randomValue(rng, 2);
   return [A("rt"), env, rt, encVal(v), A(rng.chance(1, 2) ? "true" : "false")];
